@@ -50,6 +50,11 @@ def check_core_family(prop, tier):
         extra_viol = r["violations"]
         extra_cov = {"builder_histories_executed": r["n"], "builder_builds_read_back": r["nbuilds"],
                      "builder_model_states": r["states"]}
+    if prop == "C04":
+        # one parser object, the same token presented again under another key (call histories)
+        r = parser_pipeline(prop, tier, "c15", ("C04",))
+        extra_viol = r["violations"]
+        extra_cov = {"parser_histories_executed": r["n"], "parser_parses": r["nparse"], "parser_model_states": r["states"]}
     fresh = verif.report(prop, s["violations"] + extra_viol, tier)
     if s["nviol"] > len(s["violations"]) and fresh == 0 and s["nviol"] > 0:
         # more violations than were kept, all kept ones are known: be conservative
@@ -212,7 +217,114 @@ def check_builder_family(prop, tier):
     return 1 if fresh > 0 else 0
 
 
+PARSER_FAMILY = {
+    "C15": dict(fam="c15", whys=("C15",)),
+    "C16": dict(fam="c16", whys=("C16",)),
+    "C11": dict(fam="c11", whys=("C11",)),
+    "C12": dict(fam="c11", whys=("C12",)),
+}
+
+PARSER_ASSUMPTIONS = [
+    "time classes keep margins (past <= now-2s, future >= now+60s): the wall clock never decides",
+    "HashMap iteration order is treated as nondeterminism: an observation is accepted iff some processing order explains it",
+    "the default exp/nbf validators are closures of the library; their calls cannot be logged, only their verdict is observed",
+]
+
+
+def parser_pipeline(prop, tier, fam, whys, sweep=0):
+    thorough = tier == "thorough"
+    cfg = "MC_Parser_%s%s.cfg" % (fam, "_thorough" if thorough else "")
+    res = verif.run_tlc("MC_Parser.tla", cfg, workers=8, timeout=3000)
+    verif.require_model_ok(res, cfg)
+    behs = verif.printed_records(res["out"], "BEH")
+    toks = verif.printed_records(res["out"], "TOKS")
+    if not behs or not toks:
+        raise ToolError("MC_Parser printed no behaviours")
+    beh_path = os.path.join(verif.WORK, "pbeh_%s_%s.ndjson" % (prop, tier))
+    toks_path = os.path.join(verif.WORK, "ptoks_%s_%s.json" % (prop, tier))
+    verif.write_ndjson(beh_path, behs)
+    json.dump(toks[0], open(toks_path, "w"))
+    trace = os.path.join(verif.WORK, "ptrace_%s_%s.ndjson" % (prop, tier))
+    args = ["run-parser", "--behaviours", beh_path, "--toks", toks_path, "--family", fam, "--tier", tier,
+            "--seed", str(verif.seed()), "--out", trace]
+    if sweep:
+        args += ["--sweep-stride", str(sweep)]
+    verif.run_pv(args, timeout=7200)
+    n, bad, tres = validate_trace("ParserTrace.tla", "ParserTrace.cfg", trace, timeout=7000)
+    violations = []
+    other = 0
+    if bad:
+        lines = open(trace).read().splitlines()
+        conc = open(trace + ".conc").read().splitlines()
+        for b in bad:
+            if not any(w in b["why"] for w in whys):
+                other += 1
+                if other <= 5:
+                    log("note: behaviour %s rejected for another property: %s" % (b["id"], b["why"]))
+                continue
+            rec = json.loads(lines[b["line"] - 1])
+            try:
+                cc = json.loads(conc[b["line"] - 1])
+            except Exception:
+                cc = None
+            violations.append({"props": [prop], "what": "%s (behaviour %s, call %d)" % (b["why"], b["id"], b["step"]),
+                               "replay": {"kind": "parser-trace", "id": b["id"], "pr": rec["pr"], "layer": rec["layer"],
+                                          "failing_call": b["step"], "why": b["why"], "behaviour": rec, "concrete_tokens": cc,
+                                          "reproduce": "pv " + " ".join(args) + " ; validate with spec/trace/ParserTrace.tla"}})
+    nparse = 0
+    sample = []
+    with open(trace) as f:
+        for i, line in enumerate(f):
+            nparse += line.count('"op":"parse"')
+            if i in (0, n // 2, n - 1):
+                smp = json.loads(line)
+                if len(smp.get("ops", [])) > 8:
+                    smp["ops"] = smp["ops"][:8] + ["... %d more calls" % (len(smp["ops"]) - 8)]
+                    smp["toks"] = smp["toks"][:8] + ["..."]
+                sample.append(smp)
+    return dict(states=res["distinct"], transitions=res["states"], nbeh=len(behs), n=n, bad=bad, violations=violations,
+                other=other, nparse=nparse, samples=sample, twall=tres["wall"])
+
+
+def check_parser_family(prop, tier):
+    """C11, C12, C15, C16: parser state machines composed with the token model
+    (spec/Parser.tla EXTENDS Core). MC_Parser: exhaustive configuration x parse histories,
+    properties as invariants; every history is executed on the real parsers; ParserTrace:
+    TLC validates every recorded observation (outcome, named claim, validator calls)."""
+    t0 = time.time()
+    conf = PARSER_FAMILY[prop]
+    thorough = tier == "thorough"
+    sweep = 0
+    if conf["fam"] == "c11":
+        sweep = 1 if thorough else 64
+    r = parser_pipeline(prop, tier, conf["fam"], conf["whys"], sweep)
+    fresh = verif.report(prop, r["violations"], tier)
+    coverage = {
+        "states": r["states"],
+        "transitions": r["transitions"],
+        "traces_validated_against_impl": r["n"],
+        "samples": r["samples"],
+        "evaluations": r["nparse"],
+        "distinct_nontrivial": r["n"],
+        "rule": "MC_Parser (%s) enumerates every parser configuration history x parse sequence within its bounds (%d histories "
+                "printed); each is executed on the real parser for the protocols of the tier with tokens crafted through the core "
+                "layer%s; one evaluation = one parse call whose observation (outcome class, named claim, logged validator calls) "
+                "TLC checked against Parser.tla/Core.tla; distinct = recorded behaviours (one parser object each)"
+                % (conf["fam"], r["nbeh"], (", plus the rendering space of past/future instants (2879 UTC offsets x 0-9 fraction digits x "
+                   "T/space x 4 instants, stride %d on v4.local) in parser objects of 100 parses" % sweep) if sweep else ""),
+        "tlc_invariants": "Inv_ExpectIff, Inv_Validators, Inv_ExpRejects, Inv_NbfRejects, Inv_Allowed, Inv_ParsePure",
+        "rejected_behaviours": len(r["bad"]),
+        "rejected_for_other_properties": r["other"],
+        "trace_validation_wall_s": round(r["twall"], 1),
+        "exhaustive": False,
+    }
+    verif.write_evidence(prop, tier, coverage, PARSER_ASSUMPTIONS + CORE_ASSUMPTIONS[:1], time.time() - t0, len(r["violations"]))
+    return 1 if fresh > 0 else 0
+
+
 REGISTRY = {}
+for _p in ("C11", "C12", "C15", "C16"):
+    REGISTRY[_p] = check_parser_family
 for _p in ("C10", "C13", "C14", "C17"):
     REGISTRY[_p] = check_builder_family
 for _p in ("C01", "C02", "C03", "C04", "C05", "C06", "C07"):
